@@ -89,22 +89,22 @@ Definition ex_ifs : list bool := [true; true; true; true].
 Definition ex_call (v : value) (os : list nat) : option nat := Some (vid v + length os).
 Definition v7 : value := mkV 7 7.
 
-(* rebuild() is outside the well-formed histories for a reason: it re-runs __init__, which
-   forgets the sub-registries of an invalidating registry (model and real code alike); a later
-   registration in the base then no longer reaches the sub-registry's caches. *)
+(* rebuild() is outside the well-formed histories of the theorems above.  It used to break
+   transparency: it re-runs __init__, which forgot the sub-registries of an invalidating
+   registry, so a later registration in the base no longer reached the sub-registry's caches
+   (found while proving C05/C06/C07; repaired in /repo by "fix: rebuild() keeps the registries
+   based on the rebuilt one", and Model/RegSys.v ORebuild follows the repaired code).  The
+   witness history is now transparent: *)
 Definition ex_rebuild_pre : list cop :=
   [CReg (ONewReg Push []); CReg (ONewReg Push [0]); CReg (QLookup 1 [1] 3 (NStr 0));
    CReg (ORebuild 0); CReg (ORegister 0 [Some 1] 3 0 (Some v7))].
 
-Theorem C05_rebuild_outside_refuted :
-  exists (pre : list cop) (q : rop), is_lookup q = true /\
-    nth (length pre) (crun ex_call (mkCS ex_g ex_ifs []) (pre ++ [CReg q])) [] <>
-    nth (length (erase_lookups pre)) (crun ex_call (mkCS ex_g ex_ifs []) (erase_lookups pre ++ [CReg q])) [].
-Proof.
-  exists ex_rebuild_pre, (QLookup 1 [1] 3 (NStr 0)). split; [reflexivity|].
-  vm_compute. discriminate.
-Qed.
-Print Assumptions C05_rebuild_outside_refuted.
+Example C05_rebuild_witness_transparent :
+  let q := QLookup 1 [1] 3 (NStr 0) in
+  nth (length ex_rebuild_pre) (crun ex_call (mkCS ex_g ex_ifs []) (ex_rebuild_pre ++ [CReg q])) [] =
+  nth (length (erase_lookups ex_rebuild_pre))
+      (crun ex_call (mkCS ex_g ex_ifs []) (erase_lookups ex_rebuild_pre ++ [CReg q])) [].
+Proof. vm_compute. reflexivity. Qed.
 
 (* ---- non-vacuity: well-formed histories in which the invalidation matters *)
 
